@@ -14,7 +14,7 @@ def tstr(h, m):
     return "%02d:%02d" % (h, m)
 
 
-async def _commit_path(payload, sched_index, rounds):
+async def _commit_path(payload, sched_index, rounds, receive=None):
     """Each round: SchedulesResponse -> EcoMAX -> Schedule edits -> commit -> queued SetScheduleRequest."""
     from pyplumio.devices.ecomax import EcoMAX
     from pyplumio.frames.responses import SchedulesResponse
@@ -23,8 +23,9 @@ async def _commit_path(payload, sched_index, rounds):
     q = asyncio.Queue()
     dev = EcoMAX(q, network=NetworkInfo())
     frames = []
-    for edits in rounds:
-        dev.handle_frame(SchedulesResponse(message=bytearray(payload)))
+    for k, edits in enumerate(rounds):
+        if receive is None or receive[k]:
+            dev.handle_frame(SchedulesResponse(message=bytearray(payload)))
         for _ in range(4):
             await asyncio.gather(*[t for t in dev.tasks], return_exceptions=True)
             await asyncio.sleep(0)
@@ -36,7 +37,8 @@ async def _commit_path(payload, sched_index, rounds):
         await sched.commit()
         while not q.empty():
             fr = q.get_nowait()
-            frames.append([int(fr.frame_type), int(fr.recipient), list(bytes(fr.message))])
+            # the request is transmitted (serialised) before the next round, as the producer would do
+            frames.append([int(fr.frame_type), int(fr.recipient), list(bytes(fr.bytes)[8:-2])])
     return frames
 
 
@@ -91,7 +93,9 @@ class C18(Prop):
                     e = rng.randrange(s + 1, 48)
                     edits.append([rng.randrange(7), rng.randrange(4), [s // 2, 30 * (s % 2)], [e // 2, 30 * (e % 2)]])
                 rounds.append(edits)
-            cases.append({"kind": "commit", "scheds": scheds, "target": target, "rounds": rounds})
+            # a later round either starts from a freshly received response or goes on editing the same Schedule object
+            receive = [True] + [rng.random() < 0.5 for _ in rounds[1:]]
+            cases.append({"kind": "commit", "scheds": scheds, "target": target, "rounds": rounds, "receive": receive})
         return cases
 
     # ---- implementation -----------------------------------------------------------------
@@ -112,7 +116,7 @@ class C18(Prop):
         payload = self._payload(c)
         rounds = [[(d, STATES[st], tstr(*s), tstr(*e)) for d, st, s, e in edits] for edits in c["rounds"]]
         try:
-            return vloop.run(_commit_path, payload, c["scheds"][c["target"]]["index"], rounds)
+            return vloop.run(_commit_path, payload, c["scheds"][c["target"]]["index"], rounds, c.get("receive"))
         except Exception as ex:  # noqa: BLE001
             return {"error": type(ex).__name__}
 
@@ -136,8 +140,10 @@ class C18(Prop):
             else:
                 t = c["scheds"][c["target"]]
                 frames = []
-                for edits in c["rounds"]:
-                    days = [list(d) for d in t["bits"]]       # every round starts from the freshly received week
+                days = None
+                for k, edits in enumerate(c["rounds"]):
+                    if days is None or c.get("receive", [True] * 99)[k]:
+                        days = [list(d) for d in t["bits"]]   # the round starts from a freshly received week; otherwise it goes on
                     for d, st, s, e in edits:
                         r = model.call("set_state", [days[d], st, s[0], s[1], e[0], e[1]])
                         days[d] = [int(b) for b in r[0]]
